@@ -162,14 +162,18 @@ class Pair:
         self.scp = AE("SCP")
         self.scp.maximum_pdu_size = maxpdu
         self.scp.acse_timeout = self.scp.dimse_timeout = self.scp.network_timeout = 10
+        # the storage class is negotiated in two contexts: first one in a transfer syntax of the other byte order (never usable
+        # for this pair's data sets), then the pair's own - so the context in use is not the first one of its abstract syntax
+        decoy = TS["implicit"] if tsuid == TS["bigendian"] else TS["bigendian"]
         for uid in (CT, PR_FIND, PR_GET, PR_MOVE, MPPS, COMMIT, MPPS_EVT, MPPS_GET):
-            self.scp.add_supported_context(uid, tsuid, scu_role=True, scp_role=True)
+            self.scp.add_supported_context(uid, [tsuid, decoy] if uid == CT else tsuid, scu_role=True, scp_role=True)
         hs = [(evt.EVT_C_STORE, self.on_store), (evt.EVT_C_FIND, self.on_find), (evt.EVT_C_GET, self.on_get), (evt.EVT_C_MOVE, self.on_move),
               (evt.EVT_N_SET, self.on_n), (evt.EVT_N_CREATE, self.on_n), (evt.EVT_N_ACTION, self.on_n), (evt.EVT_N_EVENT_REPORT, self.on_n), (evt.EVT_N_GET, self.on_nget)]
         self.server = self.scp.start_server(("127.0.0.1", 0), block=False, evt_handlers=hs)
         self.port = self.server.socket.getsockname()[1]
         self.scu = AE("SCU")
         self.scu.acse_timeout = self.scu.dimse_timeout = self.scu.network_timeout = 10
+        self.scu.add_requested_context(CT, decoy)
         for uid in (CT, PR_FIND, PR_GET, PR_MOVE, MPPS, COMMIT, MPPS_EVT, MPPS_GET):
             self.scu.add_requested_context(uid, tsuid)
         self.assoc = self.scu.associate("127.0.0.1", self.port, max_pdu=maxpdu, ext_neg=[build_role(CT, scu_role=True, scp_role=True)],
